@@ -269,9 +269,10 @@ theorem tie_send_dispatch (data : Bytes) (t : Int) (os : Os) :
       | .sendAll => sendAll data os
       | .sendTry => sendTry data os
       | .sendSomeLimited => sendSome data t os := by
-  simp only [send, Gen.Send_dispatch]
-  repeat' split
-  all_goals simp_all
+  -- split on the MODEL's conditions; every generated `if` (whatever its order and polarity) is decided by `omega`
+  by_cases h1 : t < 0 <;> by_cases h2 : t = 0 <;>
+    simp (disch := omega) only [send, Gen.Send_dispatch, if_pos, if_neg, if_true, if_false, h1, h2] <;>
+      (try (exfalso; omega))
 end SockModel.Props.C01
 
 /-! ## Source-derived tie, stage 2 (DESIGN.md §0.7): `SendNow`, `ReceiveNow`, `Receive`, `SendTry`, `SendAll`
@@ -332,13 +333,13 @@ theorem tie_ReceiveNow (buf : Bytes) (fuel size : Nat) (h64 : size < 2 ^ 64) (os
       dsimp only
       generalize bs.take size = tk at hle ⊢
       cases tk with
-      | nil => simp [Gen.M.throw, resOf, exnOf, mapRes]
+      | nil =>
+        simp [Gen.M.throw, resOf, exnOf, mapRes]
       | cons x xs =>
-        have h1 : ¬ (((x :: xs).length : Nat) : Int) = 0 := by simp; omega
-        have h3 : ¬ (((x :: xs).length : Nat) : Int) < 0 := by omega
         have h4 : ((((x :: xs).length : Nat) : Int) % 18446744073709551616).toNat = (x :: xs).length := by omega
-        simp only [h1, h3, if_false, Gen.M.pure, resOf, mapRes, h4, List.isEmpty_cons]
-        simp
+        have hl : (0 : Int) < (((x :: xs).length : Nat) : Int) := by simp only [List.length_cons]; omega
+        simp (disch := omega) only [if_pos, if_neg, Gen.M.pure, resOf, mapRes, h4, List.isEmpty_cons]
+        try simp
 
 open SockModel.Props.C16 in
 /-- **tie of `Receive(fd, data, size, timeout)`** -/
@@ -364,7 +365,7 @@ theorem tie_Receive (buf : Bytes) (fuel size : Nat) (h64 : size < 2 ^ 64) (t : I
       | false => simp [Gen.M.pure, resOf, mapRes]
       | true =>
         have hn := tie_ReceiveNow buf fuel size h64 os1 i' e'
-        simp only [Bool.not_true, if_false, not_true_eq_false, Gen.M.bind]
+        simp only [Bool.not_true, if_false, if_true, not_true_eq_false, Gen.M.bind]
         generalize Gen.ReceiveNow (osWorld buf) fuel size ⟨os1, i', e'⟩ = q at hn ⊢
         generalize recvNow size os1 = m at hn ⊢
         obtain ⟨qr, qw⟩ := q
@@ -423,7 +424,7 @@ theorem tie_SendTry (buf : Bytes) (fuel : Nat) (h64 : buf.length < 2 ^ 64) (os :
         have hb : (buf.drop 0).take buf.length = buf := by simp
         rw [hb] at hq hqr
         have hq' : Gen.SendNow (osWorld buf) fuel (0 : Int) (buf.length : Int) ⟨os1, i', e'⟩ = _ := hq
-        simp only [Bool.not_true, if_false, not_true_eq_false, Gen.M.bind, hq']
+        simp only [Bool.not_true, if_false, if_true, not_true_eq_false, Gen.M.bind, hq']
         cases q <;> simp [resOf, Gen.M.pure] at hqr ⊢ <;> rw [hqr]
 
 section
